@@ -69,7 +69,11 @@ fn trial_a(ctx: &Ctx, cs: u64) {
     // stay in the queue, `connecting` threads keep connecting across the drop
     let handed = rng.below(4);
     let queued = rng.below(3);
-    let connectors = rng.below(3);
+    // half of the trials: nobody tries to connect for 150 ms after the drop, then the first
+    // attempt must already be refused (an accept thread that went back to sleep in accept()
+    // after the drop's wake-up would be "healed" by the very attempts that look for refusal)
+    let quiet_ms: u64 = if rng.chance(1, 2) { 150 } else { 0 };
+    let connectors = if quiet_ms > 0 { 0 } else { rng.below(3) };
     let mut clients: Vec<Client> = Vec::new();
     for i in 0..handed + queued {
         match Client::connect(&addr) {
@@ -137,6 +141,21 @@ fn trial_a(ctx: &Ctx, cs: u64) {
     let mut first_refused: Option<u64> = None;
     let mut accepted_after_refusal = false;
     let mut last_err = String::new();
+    if quiet_ms > 0 {
+        rep.inc("a:quiet_period_before_the_first_attempt");
+        std::thread::sleep(Duration::from_millis(quiet_ms));
+        if try_connect(&addr).is_ok() && finding.is_none() {
+            if cal.healthy(Duration::from_millis(150)) {
+                finding = Some((
+                    "C20/still-accepting".into(),
+                    format!("the first connection attempt after drop(server), made {} ms later, was accepted", quiet_ms),
+                ));
+            } else {
+                rep.inconclusive("still accepting after the quiet period, calibrator unhealthy");
+                return;
+            }
+        }
+    }
     let poll_t0 = Instant::now();
     while poll_t0.elapsed() < Duration::from_millis(1300) {
         match try_connect(&addr) {
@@ -631,9 +650,21 @@ pub fn run(ctx: &Ctx) {
             }
         }
     } else {
-        let pert = crate::env::perturb_setup(&mut rng, ctx.shard, true);
-        let permille = *rng.pick(&[0u32, 200, 500]);
-        crate::env::fp_configure(ctx.seed ^ ctx.shard as u64, &[v::FP_ACCEPTED], permille, 2000);
+        // half of these shards: everything on one CPU and no injected delay, so that a thread the
+        // drop wakes up (the accept thread) runs at once, ahead of the rest of the drop
+        let single_cpu = ctx.shard % 4 == 1;
+        let pert = if single_cpu {
+            crate::util::set_affinity(1, (ctx.shard * 3) % crate::util::online_cpus());
+            let nspin = [0usize, 0, 0, 1][(ctx.shard / 4) % 4];
+            let spin = if nspin > 0 { Some(crate::util::Spinners::start(nspin)) } else { None };
+            crate::env::Perturb { cpus: 1, spinners: nspin, _spin: spin, desc: format!("cpus=1 spinners={} (fixed)", nspin) }
+        } else {
+            crate::env::perturb_setup(&mut rng, ctx.shard, true)
+        };
+        // (on the single-CPU shards the injected delay sits in the dropping thread, right after
+        // its wake-up connection, instead of in the accept thread)
+        let permille = if single_cpu { 500 } else { *rng.pick(&[0u32, 200, 500]) };
+        crate::env::fp_configure(ctx.seed ^ ctx.shard as u64, &[if single_cpu { v::FP_DROP_WOKE_ACCEPT } else { v::FP_ACCEPTED }], permille, 2000);
         let mut idx = 0u64;
         while ctx.time_left() && ctx.rep.n_violations() < 6 {
             trial_a(ctx, ctx.case_seed(idx));
